@@ -35,11 +35,27 @@ const (
 	grace = time.Hour // merge grace == enforced maximum fragment gap
 )
 
-var traceIDs = []string{"A", "B"}
+// traceIDs is the trace universe of the history being executed and curCfg its configuration (set by execute; a worker
+// process executes one history at a time).
+var (
+	traceIDs = []string{"A", "B"}
+	curCfg   Cfg
+)
+
+// traceOf returns the trace id of a span name: "A2" -> "A" (two-trace alphabet), "t0007.2" -> "t0007" (scale family).
+func traceOf(span string) string {
+	if i := strings.IndexByte(span, '.'); i >= 0 {
+		return span[:i]
+	}
+	return span[:1]
+}
 
 // span "A2" = trace A, number 2.  Timestamps are distinct; B lies 30 min after A so that a clock exists for which A is
 // mature and B is not.  Secondary-index keys of A and B interleave (11 12 .. 31 32) and collide once (A2 and B2: 20).
 func spanDef(name string) trace.C13Span {
+	if strings.IndexByte(name, '.') >= 0 {
+		return scaleSpanDef(curCfg, name)
+	}
 	tr := name[:1]
 	n := int64(name[1] - '0')
 	ts := t0 + n*int64(time.Millisecond)
@@ -55,6 +71,19 @@ func spanDef(name string) trace.C13Span {
 }
 
 func keyOf(name string) int64 { return spanDef(name).Key }
+
+// spanDefSafe is spanDef for names read back from the implementation (which may be garbage).
+func spanDefSafe(name string) (d trace.C13Span) {
+	defer func() {
+		if recover() != nil {
+			d = trace.C13Span{ID: name}
+		}
+	}()
+	if len(name) < 2 {
+		return trace.C13Span{ID: name}
+	}
+	return spanDef(name)
+}
 
 // clocks (logical merge clock, tsTable.setMergeNow)
 var clocks = map[string]int64{
@@ -72,6 +101,13 @@ type Cfg struct {
 	Spans     string `json:"spans"` // universe, e.g. "A1,A2,A3,B1,B2"
 	ForceSlow bool   `json:"force_slow,omitempty"`
 	FullProj  bool   `json:"full_projection,omitempty"` // sampler projects tags+span ids+spans (decoded staging instead of raw staging)
+	// scale family (scale.go)
+	N        int    `json:"n,omitempty"`         // trace universe t0000..t<N-1>
+	Pattern  string `json:"pattern,omitempty"`   // sampler "pattern": which trace indexes it drops
+	Drops    string `json:"drops,omitempty"`     // sampler "list": comma separated trace ids it drops
+	Big      string `json:"big,omitempty"`       // id of the oversized trace
+	BigKind  string `json:"big_kind,omitempty"`  // "split": >= one block (2 MiB) -> stored in several blocks; "budget": above the per-trace staging budget
+	MemLimit uint64 `json:"mem_limit,omitempty"` // protector memory limit (the staging budgets derive from it)
 }
 
 func (c Cfg) String() string {
@@ -81,6 +117,15 @@ func (c Cfg) String() string {
 	}
 	if c.FullProj {
 		s += "/proj"
+	}
+	if c.N > 0 {
+		s += fmt.Sprintf("/n=%d", c.N)
+		if c.Pattern != "" {
+			s += "/" + c.Pattern
+		}
+		if c.Big != "" {
+			s += fmt.Sprintf("/big=%s:%s/drops=%s", c.Big, c.BigKind, c.Drops)
+		}
 	}
 	return s
 }
@@ -127,6 +172,7 @@ func (h Hist) String() string {
 // Sampler decision functions (the fault alphabet)
 
 type sampler struct {
+	cfg   Cfg
 	kind  string
 	proj  bool
 	hook  func() // W1: fired once inside Decide
@@ -168,6 +214,10 @@ func (s *sampler) Decide(b *sdk.TraceBatch) (sdk.Verdict, error) {
 			keep[i] = b.Traces[i].TraceID != kind[5:]
 		}
 	case "drop-all":
+	case "pattern", "list":
+		for i := range keep {
+			keep[i] = !wouldDrop(s.cfg, b.Traces[i].TraceID)
+		}
 	case "error": // a failing sampler that ALSO returns an all-drop mask: the mask must be ignored
 		return sdk.Verdict{Keep: keep}, errors.New("c13: sampler failure")
 	case "panic":
@@ -179,11 +229,21 @@ func (s *sampler) Decide(b *sdk.TraceBatch) (sdk.Verdict, error) {
 }
 
 // wouldDrop: the decision function proposes to drop trace t.
-func wouldDrop(kind, t string) bool {
+func wouldDrop(c Cfg, t string) bool {
+	kind := c.Sampler
 	if i := strings.IndexByte(kind, '/'); i >= 0 {
 		kind = kind[:i]
 	}
 	switch kind {
+	case "pattern":
+		return patternDrops(c.Pattern, c.N, t)
+	case "list":
+		for _, d := range strings.Split(c.Drops, ",") {
+			if d == t {
+				return true
+			}
+		}
+		return false
 	case "drop-all":
 		return true
 	case "drop-A":
@@ -250,8 +310,9 @@ func observe(tb *trace.C13Table, light bool) (*obs, error) {
 	for t, spans := range q {
 		for _, s := range spans {
 			o.Visible[t] = append(o.Visible[t], s.ID)
-			if s.Payload != "payload-"+s.ID || s.Tag != s.ID || !strings.HasPrefix(s.ID, t) {
-				o.Corrupt = append(o.Corrupt, fmt.Sprintf("%s:%s payload=%q tag=%q", t, s.ID, s.Payload, s.Tag))
+			want := len(trace.C13Payload(spanDefSafe(s.ID)))
+			if s.Payload != "payload-"+s.ID || s.Tag != s.ID || !strings.HasPrefix(s.ID, t) || s.PayloadLen != want || !s.ZeroTail {
+				o.Corrupt = append(o.Corrupt, fmt.Sprintf("%s:%s payload=%q len=%d (want %d) tag=%q", t, s.ID, s.Payload, s.PayloadLen, want, s.Tag))
 			}
 		}
 		sort.Strings(o.Visible[t])
@@ -384,10 +445,11 @@ func openTable(c Cfg) (*trace.C13Table, *sampler, string) {
 	cfg := trace.C13Cfg{
 		Group: "c13", Grace: grace, SegStart: time.Unix(0, 0), SegEnd: time.Unix(0, 24*hour), ForceSlow: c.ForceSlow,
 		Pipeline: !strings.HasSuffix(c.Sampler, "/pipeline-off"), MergeEvent: !strings.HasSuffix(c.Sampler, "/finalize-only"),
+		MemLimit: c.MemLimit,
 	}
 	var smp *sampler
 	if c.Sampler != "none" {
-		smp = &sampler{kind: c.Sampler, proj: c.FullProj, seen: map[string]int{}}
+		smp = &sampler{cfg: c, kind: c.Sampler, proj: c.FullProj, seen: map[string]int{}}
 		cfg.Samplers = []sdk.Sampler{smp}
 	}
 	tb := trace.C13Open(dir, cfg)
@@ -440,6 +502,9 @@ func apply(tb *trace.C13Table, smp *sampler, op Op, cur *obs) (stepInfo, error) 
 		}
 	}
 	intro0, rej0 := tb.Counters()
+	if smp != nil {
+		smp.seen = map[string]int{} // "was the sampler asked about this trace" is per step
+	}
 	switch op.K {
 	case "W":
 		tb.Write(toSpans(op.Batch))
@@ -509,7 +574,8 @@ func checkStep(c Cfg, op Op, si stepInfo, m model, pre, post *obs, smp *sampler)
 		opName += "+" + op.Mid
 	}
 	add := func(class, t, reason, detail string) {
-		vs = append(vs, viol{Key: fmt.Sprintf("%s op=%s trace=%s sampler=%s clock=%s%s", class, opName, t, c.Sampler, c.Clock, reason), Detail: detail})
+		vs = append(vs, viol{Key: fmt.Sprintf("%s op=%s trace=%s sampler=%s clock=%s%s", class, opName, traceRole(c, t), samplerName(c), c.Clock, reason),
+			Detail: fmt.Sprintf("trace %s: %s", t, detail)})
 	}
 	written := map[string][]string{}
 	switch {
@@ -517,13 +583,13 @@ func checkStep(c Cfg, op Op, si stepInfo, m model, pre, post *obs, smp *sampler)
 		nm.Batches++
 		nm.Written = append(nm.Written, op.Batch...)
 		for _, s := range op.Batch {
-			written[s[:1]] = append(written[s[:1]], s)
+			written[traceOf(s)] = append(written[traceOf(s)], s)
 		}
 	case si.midFired:
 		nm.Batches++
 		nm.Written = append(nm.Written, op.MidBatch...)
 		for _, s := range op.MidBatch {
-			written[s[:1]] = append(written[s[:1]], s)
+			written[traceOf(s)] = append(written[traceOf(s)], s)
 		}
 	}
 	mergeLike := op.K == "MM" || op.K == "M" || op.K == "FIN"
@@ -538,6 +604,16 @@ func checkStep(c Cfg, op Op, si stepInfo, m model, pre, post *obs, smp *sampler)
 			if after[p.ID] {
 				survivors[p.ID] = true
 			}
+		}
+	}
+	if mergeLike && c.Big != "" && smp != nil && samplerActive(c, op.K) {
+		if smp.seen[c.Big] == 0 {
+			notes = append(notes, "oversized-trace-never-offered-to-sampler")
+		} else {
+			notes = append(notes, "oversized-trace-offered-to-sampler")
+		}
+		if smp.calls == 0 {
+			notes = append(notes, "oversized-merge-without-decide-call")
 		}
 	}
 	for _, t := range traceIDs {
@@ -566,7 +642,7 @@ func checkStep(c Cfg, op Op, si stepInfo, m model, pre, post *obs, smp *sampler)
 				why = " reason=no-sampler"
 			case !samplerActive(c, op.K):
 				why = " reason=sampler-not-active-for-this-event"
-			case !wouldDrop(c.Sampler, t):
+			case !wouldDrop(c, t):
 				if why == "" {
 					why = " reason=sampler-did-not-drop"
 					if strings.HasPrefix(c.Sampler, "error") || strings.HasPrefix(c.Sampler, "panic") || strings.HasPrefix(c.Sampler, "mismatch") {
@@ -574,20 +650,20 @@ func checkStep(c Cfg, op Op, si stepInfo, m model, pre, post *obs, smp *sampler)
 					}
 				}
 			case outside:
+			case smp != nil && smp.seen[t] == 0:
+				// fail open: a trace the sampler was never asked about in this step (immature, oversized, not assemblable)
+				why = " reason=sampler-never-asked"
 			default:
 				dropOK = true
 			}
 			// vacuity bookkeeping
-			if wouldDrop(c.Sampler, t) && samplerActive(c, op.K) && len(m.Expect[t]) > 0 {
+			if wouldDrop(c, t) && samplerActive(c, op.K) && len(m.Expect[t]) > 0 {
 				switch {
 				case len(got) == 0 && dropOK:
 					notes = append(notes, "dropped-whole-trace")
 					if c.Clock == "immature" || (t == "B" && (c.Clock == "partial" || c.Clock == "boundary")) {
 						// not a violation (the property text does not state merge_grace semantics); expected 0
 						notes = append(notes, "dropped-whole-trace-while-immature")
-					}
-					if smp != nil && smp.seen[t] == 0 {
-						notes = append(notes, "dropped-without-decide?")
 					}
 				case outside && smp != nil && smp.seen[t] > 0:
 					notes = append(notes, "drop-proposed-kept-by-guard-or-revalidation")
@@ -640,13 +716,17 @@ func checkStep(c Cfg, op Op, si stepInfo, m model, pre, post *obs, smp *sampler)
 			add("ordered-query-differs", "*", "", fmt.Sprintf("query by trace id returns %s, ordered query returns %s", a, b))
 		}
 	}
+	known := map[string]bool{}
+	for _, t := range traceIDs {
+		known[t] = true
+	}
 	for t := range post.Visible {
-		if t != "A" && t != "B" {
+		if !known[t] {
 			add("extra-span", t, "", "unknown trace id returned")
 		}
 	}
 	for t := range post.Sidx {
-		if t != "A" && t != "B" {
+		if !known[t] {
 			add("sidx-orphan-entries", t, "", fmt.Sprintf("sidx entries %v of an unknown trace", post.Sidx[t]))
 		}
 	}
@@ -692,6 +772,8 @@ type execResult struct {
 // state before it is compared with the digest recorded when that state was first reached (determinism check); with
 // checkAll (replay mode) every op is observed and checked and the model is rebuilt from scratch.
 func execute(h Hist, m0 *model, preDigest string, checkAll bool) (res execResult, err error) {
+	curCfg = h.Cfg
+	traceIDs = universeTraces(h.Cfg)
 	tb, smp, dir := openTable(h.Cfg)
 	defer func() {
 		tb.Close()
@@ -925,14 +1007,23 @@ func enabledOps(c Cfg, m model, o *obs) []Op {
 // BFS over one unit = (configuration, first batch)
 
 type unit struct {
+	Scale *Hist    `json:"scale,omitempty"` // scale family: one fixed history instead of a search
+	Name  string   `json:"name,omitempty"`
 	Cfg   Cfg      `json:"cfg"`
 	First []string `json:"first"`
 	Depth int      `json:"depth"`
 }
 
-func (u unit) String() string { return fmt.Sprintf("%s first=%v depth=%d", u.Cfg, u.First, u.Depth) }
+func (u unit) String() string {
+	if u.Scale != nil {
+		return fmt.Sprintf("scale %s %s", u.Name, u.Cfg)
+	}
+	return fmt.Sprintf("%s first=%v depth=%d", u.Cfg, u.First, u.Depth)
+}
 
 type unitResult struct {
+	ScaleDigest string         `json:"scale_digest,omitempty"`
+	Scale       int            `json:"scale,omitempty"`
 	Unit        string         `json:"unit"`
 	Cfg         string         `json:"cfg"`
 	HarnessErr  string         `json:"harness_err,omitempty"`
@@ -1117,7 +1208,7 @@ func specs(thorough bool) []cfgSpec {
 }
 
 func units(thorough bool) []unit {
-	var us []unit
+	us := scaleUnits(thorough) // first: the heaviest single histories start early
 	for _, sp := range specs(thorough) {
 		for _, b := range nextBatches(sp.c, model{}, false) {
 			us = append(us, unit{Cfg: sp.c, First: b, Depth: sp.d})
@@ -1203,7 +1294,12 @@ func main() {
 			if i%wn != wi {
 				continue
 			}
-			ur := runUnit(u, deadline)
+			var ur unitResult
+			if u.Scale != nil {
+				ur = runScaleUnit(u)
+			} else {
+				ur = runUnit(u, deadline)
+			}
 			b, _ := json.Marshal(ur)
 			par.Emit(b)
 		}
@@ -1220,6 +1316,8 @@ func main() {
 	states, trans, opsx, dedup, violCount, opErr, multi, cut := 0, 0, 0, 0, 0, 0, 0, 0
 	outcomes, notes, kinds := map[string]int{}, map[string]int{}, map[string]int{}
 	byDepth := map[string]int{}
+	scaleHist, scaleSteps := 0, 0
+	var scaleDigests []string
 	byCfg := map[string]map[string]int{}
 	best := map[string]viol{}
 	var samples []string
@@ -1245,6 +1343,11 @@ func main() {
 		byCfg[ur.Cfg]["transitions"] += ur.Transitions
 		if ur.Cut {
 			byCfg[ur.Cfg]["units_cut"]++
+		}
+		if ur.Scale > 0 {
+			scaleHist++
+			scaleSteps += ur.Transitions
+			scaleDigests = append(scaleDigests, ur.Unit+"="+ur.ScaleDigest)
 		}
 		states += ur.States
 		trans += ur.Transitions
@@ -1311,12 +1414,17 @@ func main() {
 	}
 	r.Set("bounds", map[string]any{"max_batches": maxBatches, "traces": traceIDs, "configurations": cfgList})
 	r.Set("by_configuration", byCfg)
+	sort.Strings(scaleDigests)
+	sd := sha256.Sum256([]byte(strings.Join(scaleDigests, "\n")))
+	r.Set("scale_family", map[string]any{"histories": scaleHist, "steps_checked": scaleSteps, "final_states_digest": hex.EncodeToString(sd[:8]),
+		"grid": "many-trace: N in {8,64,256[,1024 thorough]} x {every2,every3,first-half,last-half,all-but-one,one} x {W F W F M[0 1], W W W F M[0 1 2]} (+ projecting sampler: N=64 quick, all thorough); oversized: k in {3,4,5} traces x oversized at first/middle/last x every keep/drop pattern over the others x {M,FIN,MM}, kinds split(>= 2 MiB block limit, projecting; k=3 also non-projecting) and budget(> 16 MiB per-trace staging budget, k=3[,4 thorough])"})
 	if cut > 0 {
 		r.NotExhaustive(fmt.Sprintf("%d of %d units cut by the internal deadline", cut, len(us)))
 	}
 	r.Assume("the introducer loop is replaced by a stand-in that applies flusher/merger introductions with the real introduce* functions in the order they are sent; a mem-part introduction may be served before a pending merger introduction (W2)")
 	r.Assume("sampler Decide timeouts (wall clock) are excluded: decideTimeout=1h")
 	r.Assume("bloom filters of the two trace ids do not collide (false positives only make the guard more conservative)")
+	fmt.Printf("C13 scale-family histories=%d steps=%d digest=%s\n", scaleHist, scaleSteps, hex.EncodeToString(sd[:8]))
 	fmt.Printf("C13 units=%d states=%d transitions=%d real-ops=%d dedup=%d outcomes=%d multi-fragment-merges=%d op-errors=%d\n",
 		len(us), states, trans, opsx, dedup, len(outcomes), multi, opErr)
 	nk := make([]string, 0, len(notes))
